@@ -50,7 +50,7 @@ func (m *Module) classIdentifierProcessing(
 			p.Fatal(*ctx, err)
 		}
 
-		if nextT.IsEndIdentifier() {
+		if nextT == nil || nextT.IsEndIdentifier() {
 			break
 		}
 
